@@ -41,8 +41,8 @@ type rsAttrs struct {
 	ASPath     []rsSeg  `json:"aspath"`
 	NextHop    string   `json:"nexthop"`
 	LinkLocal  string   `json:"link_local,omitempty"` // second (link-local) next hop of an IPv6 route
-	MED        int64    `json:"med"` // -1 absent
-	LocalPref  int64    `json:"lp"`  // -1 absent
+	MED        int64    `json:"med"`                  // -1 absent
+	LocalPref  int64    `json:"lp"`                   // -1 absent
 	Comms      []uint32 `json:"comms"`
 	Originator string   `json:"originator"`
 	Cluster    []string `json:"cluster"`
